@@ -344,7 +344,7 @@ func run(c *runner.Ctx) {
 	}
 
 	n := len(menu)
-	b3, b4 := 1, 1
+	b3, b4 := 2, 1
 	if c.Thorough() {
 		b3, b4 = 2, 2
 	}
